@@ -1,6 +1,66 @@
-(* Properties_C07.v -- property theorems only (placeholder until the proofs land). *)
-From SC Require Import Base Cfg Comb ModStr ModMem.
+(* Properties_C07.v -- C07: overlap detection; memmove exactness
+   Only theorem statements, each closed by [exact <lemma>], with Print Assumptions beneath. *)
+From Coq Require Import List ZArith Lia Bool.
+From SC Require Import Base Wp Cfg Comb CombProofs CopySpec ModStr ModMem ProofsStr ProofsMem SpecStr SpecMem PropStr FnProps PropDefs.
 From SC.Gen Require Import Consts.
+Import ListNotations.
+Local Open Scope Z_scope.
+
+(* link from the wp statements below to executions: for every allocation-failure oracle,
+   the result and final memory of [run] satisfy the postcondition *)
+Theorem C07_wp_sound : forall (A : Type) (fail : nat -> bool) (p : prog A) st Q,
+  wp p (wm st) Q -> let '(a, st') := run fail p st in Q a (wm st').
+Proof. exact (@wp_run). Qed.
+Print Assumptions C07_wp_sound.
+
+(* ---- copy / concatenate family (generated from the table in harness/gen_fnprops.py) ---- *)
+Theorem C07_strcpy_s : forall (c : cfg) (d dmax s destbos : Z) (m : mem) (L : Z), pre_strcpy_s c d dmax s destbos m L ->
+  wp (strcpy_s c d dmax s destbos) m (fun r m' => let g := (Z.abs (s - d)) in (g <= L -> g < dmax -> r = ESOVRLP /\ cleared c 1 m' d dmax) /\ (L < g -> L < dmax -> r = EOK /\ exact_result 1 m m' d dmax s 0 L) /\ (dmax <= L -> dmax <= g -> r = ESNOSPC /\ cleared c 1 m' d dmax)).
+Proof. exact strcpy_s_C07. Qed.
+Print Assumptions C07_strcpy_s.
+Theorem C07_wcscpy_s : forall (c : cfg) (d dmax s destbos : Z) (m : mem) (L g : Z), pre_wcscpy_s c d dmax s destbos m L g ->
+  wp (wcscpy_s c d dmax s destbos) m (fun r m' => let g := g in (g <= L -> g < dmax -> r = ESOVRLP /\ cleared c (wchar_w c) m' d dmax) /\ (L < g -> L < dmax -> r = EOK /\ exact_result (wchar_w c) m m' d dmax s 0 L) /\ (dmax <= L -> dmax <= g -> r = ESNOSPC /\ cleared c (wchar_w c) m' d dmax)).
+Proof. exact wcscpy_s_C07. Qed.
+Print Assumptions C07_wcscpy_s.
+Theorem C07_strncpy_s : forall (c : cfg) (d dmax s slen destbos srcbos : Z) (m : mem) (t : Z), pre_strncpy_s c d dmax s slen destbos srcbos m t ->
+  wp (strncpy_s c d dmax s slen destbos srcbos) m (fun r m' => let g := (Z.abs (s - d)) in (g <= t -> g < dmax -> r = ESOVRLP /\ cleared c 1 m' d dmax) /\ (t < g -> t < dmax -> r = EOK /\ exact_result 1 m m' d dmax s 0 t) /\ (dmax <= t -> dmax <= g -> r = ESNOSPC /\ cleared c 1 m' d dmax)).
+Proof. exact strncpy_s_C07. Qed.
+Print Assumptions C07_strncpy_s.
+Theorem C07_strcat_s : forall (c : cfg) (d dmax s destbos : Z) (m : mem) (P L : Z), pre_strcat_s c d dmax s destbos m P L ->
+  wp (strcat_s c d dmax s destbos) m (fun r m' => let g := (Z.abs (s - d)) in let cg := cat_gap d s g P in (cg <= L -> cg < dmax - P -> r = ESOVRLP /\ cleared c 1 m' d dmax) /\ (L < cg -> L < dmax - P -> r = EOK /\ exact_result 1 m m' d dmax s P L) /\ (dmax - P <= L -> dmax - P <= cg -> r = ESNOSPC /\ cleared c 1 m' d dmax)).
+Proof. exact strcat_s_C07. Qed.
+Print Assumptions C07_strcat_s.
+Theorem C07_strncat_s : forall (c : cfg) (d dmax s slen destbos srcbos : Z) (m : mem) (P t : Z), pre_strncat_s c d dmax s slen destbos srcbos m P t ->
+  wp (strncat_s c d dmax s slen destbos srcbos) m (fun r m' => let g := (Z.abs (s - d)) in let cg := cat_gap d s g P in (cg <= t -> cg < dmax - P -> r = ESOVRLP /\ cleared c 1 m' d dmax) /\ (t < cg -> t < dmax - P -> r = EOK /\ exact_result 1 m m' d dmax s P t) /\ (dmax - P <= t -> dmax - P <= cg -> r = ESNOSPC /\ cleared c 1 m' d dmax)).
+Proof. exact strncat_s_C07. Qed.
+Print Assumptions C07_strncat_s.
+
+(* memory family, every placement: memmove = copy through a temporary; memcpy rejects exactly intersecting, non-identical operands *)
+Theorem C07_memcpy_s : forall c d dmax s slen destbos srcbos m, d <> 0 -> s <> 0 -> 1 <= dmax -> 1 <= slen -> ((destbos = BOS_UNKNOWN /\ dmax <= rmax_mem c) \/ (destbos <> BOS_UNKNOWN /\ dmax <= destbos)) -> (srcbos = BOS_UNKNOWN \/ slen * 1 <= srcbos) -> wp (memcpy_s c d dmax s slen destbos srcbos) m (mem_copy_post c 1 true d (eff_dmax false dmax destbos) s slen m).
+Proof. intros. exact (mem_copy_gen_spec c 1 (rmax_mem c) false true EOVERFLOW false d dmax s slen destbos srcbos m ltac:(lia) H H0 H1 H2 H3 H4). Qed.
+Print Assumptions C07_memcpy_s.
+Theorem C07_memmove_s : forall c d dmax s slen destbos srcbos m, d <> 0 -> s <> 0 -> 1 <= dmax -> 1 <= slen -> ((destbos = BOS_UNKNOWN /\ dmax <= rmax_mem c) \/ (destbos <> BOS_UNKNOWN /\ dmax <= destbos)) -> (srcbos = BOS_UNKNOWN \/ slen * 1 <= srcbos) -> wp (memmove_s c d dmax s slen destbos srcbos) m (mem_copy_post c 1 false d (eff_dmax false dmax destbos) s slen m).
+Proof. intros. exact (mem_copy_gen_spec c 1 (rmax_mem c) false false EOVERFLOW false d dmax s slen destbos srcbos m ltac:(lia) H H0 H1 H2 H3 H4). Qed.
+Print Assumptions C07_memmove_s.
+Theorem C07_memcpy16_s : forall c d dmax s slen destbos srcbos m, d <> 0 -> s <> 0 -> 1 <= dmax -> 1 <= slen -> ((destbos = BOS_UNKNOWN /\ dmax <= rmax_mem c) \/ (destbos <> BOS_UNKNOWN /\ dmax <= destbos)) -> (srcbos = BOS_UNKNOWN \/ slen * 2 <= srcbos) -> wp (memcpy16_s c d dmax s slen destbos srcbos) m (mem_copy_post c 2 true d (eff_dmax true dmax destbos) s slen m).
+Proof. intros. exact (mem_copy_gen_spec c 2 (rmax_mem c) true true ESLEMAX false d dmax s slen destbos srcbos m ltac:(lia) H H0 H1 H2 H3 H4). Qed.
+Print Assumptions C07_memcpy16_s.
+Theorem C07_memmove16_s : forall c d dmax s slen destbos srcbos m, d <> 0 -> s <> 0 -> 1 <= dmax -> 1 <= slen -> ((destbos = BOS_UNKNOWN /\ dmax <= rmax_mem c) \/ (destbos <> BOS_UNKNOWN /\ dmax <= destbos)) -> (srcbos = BOS_UNKNOWN \/ slen * 2 <= srcbos) -> wp (memmove16_s c d dmax s slen destbos srcbos) m (mem_copy_post c 2 false d (eff_dmax true dmax destbos) s slen m).
+Proof. intros. exact (mem_copy_gen_spec c 2 (rmax_mem c) true false EOVERFLOW false d dmax s slen destbos srcbos m ltac:(lia) H H0 H1 H2 H3 H4). Qed.
+Print Assumptions C07_memmove16_s.
+Theorem C07_memcpy32_s : forall c d dmax s slen destbos srcbos m, d <> 0 -> s <> 0 -> 1 <= dmax -> 1 <= slen -> ((destbos = BOS_UNKNOWN /\ dmax <= rmax_mem c) \/ (destbos <> BOS_UNKNOWN /\ dmax <= destbos)) -> (srcbos = BOS_UNKNOWN \/ slen * 4 <= srcbos) -> wp (memcpy32_s c d dmax s slen destbos srcbos) m (mem_copy_post c 4 true d (eff_dmax true dmax destbos) s slen m).
+Proof. intros. exact (mem_copy_gen_spec c 4 (rmax_mem c) true true ESLEMAX false d dmax s slen destbos srcbos m ltac:(lia) H H0 H1 H2 H3 H4). Qed.
+Print Assumptions C07_memcpy32_s.
+Theorem C07_memmove32_s : forall c d dmax s slen destbos srcbos m, d <> 0 -> s <> 0 -> 1 <= dmax -> 1 <= slen -> ((destbos = BOS_UNKNOWN /\ dmax <= rmax_mem c) \/ (destbos <> BOS_UNKNOWN /\ dmax <= destbos)) -> (srcbos = BOS_UNKNOWN \/ slen * 4 <= srcbos) -> wp (memmove32_s c d dmax s slen destbos srcbos) m (mem_copy_post c 4 false d (eff_dmax true dmax destbos) s slen m).
+Proof. intros. exact (mem_copy_gen_spec c 4 (rmax_mem c) true false EOVERFLOW false d dmax s slen destbos srcbos m ltac:(lia) H H0 H1 H2 H3 H4). Qed.
+Print Assumptions C07_memmove32_s.
+Theorem C07_overlap_test_is_intersection : forall dp dlen sp slen, 0 < dlen -> 0 < slen -> (chk_ovrlp_butsame dp dlen sp slen = true <-> (dp <> sp /\ dp < sp + slen /\ sp < dp + dlen)).
+Proof. exact chk_ovrlp_butsame_spec. Qed.
+Print Assumptions C07_overlap_test_is_intersection.
+Theorem C07_overlap_test_strict : forall dp dlen sp slen, 0 < dlen -> 0 < slen -> (chk_ovrlp dp dlen sp slen = true <-> (dp < sp + slen /\ sp < dp + dlen)).
+Proof. exact chk_ovrlp_spec. Qed.
+Print Assumptions C07_overlap_test_strict.
+
 Theorem C07_cfg_repo_wf : wf_cfg cfg_repo.
 Proof. exact wf_cfg_repo. Qed.
 Print Assumptions C07_cfg_repo_wf.
